@@ -129,8 +129,9 @@ pub fn run(opts: &Opts) -> i32 {
             if t.contains("verbatim") {
                 continue; // a verbatim region is copied as written, spacing included
             }
-            inputs.push((format!("hbase:{}", p.display()), format!("{prefix}{t}")));
-            inputs.push((format!("hspace:{}", p.display()), format!("{prefix}{}", mutate(t, &mut rng, 2, &mut counter))));
+            let suffix = if prefix.is_empty() { "" } else { "+directive" };
+            inputs.push((format!("hbase:{}{suffix}", p.display()), format!("{prefix}{t}")));
+            inputs.push((format!("hspace:{}{suffix}", p.display()), format!("{prefix}{}", mutate(t, &mut rng, 2, &mut counter))));
             pairs.push((base, base + 1));
         }
     }
@@ -271,6 +272,11 @@ pub fn run(opts: &Opts) -> i32 {
                         } else if squeeze(&out) == squeeze(&out2) && third == out2 {
                             let _ = width;
                             "two-pass-relayout"
+                        } else if squeeze(&fmt::strip_block_indent(&out)) == squeeze(&fmt::strip_block_indent(&out2))
+                            && fmt::block_ranges(&out).iter().any(|(a, b)| out[*a..*b].contains('\n'))
+                        {
+                            // a creeping multi-line block comment whose growing width also moves the code around it
+                            "block-comment-creep-with-relayout"
                         } else {
                             "other"
                         };
